@@ -169,7 +169,7 @@ CTL_STUBS = [
 ]
 
 K_READ_IO = dict(name="K-core::ctl_io", package="rustzx-core", features="full",
-                 harnesses=["read_io_routing"],
+                 harnesses=["read_io_routing", "read_io_floating"],
                  functions={"read_io_routing": ["ZXController::read_io (real controller built by ZXController::new, features full)",
                                                 "ZXAyChip::read", "KempstonJoy::read"]},
                  assumptions=CORE_ASSUME + CTL_STUBS + [
@@ -240,6 +240,27 @@ K_VTX = dict(name="K-vtx", package="vtx", harnesses=["play_mono", "play_stereo",
              functions={"*": ["Player::new", "Player::play", "Player::update_ay"]},
              assumptions=["recording AymBackend (sample k has value k) stands in for the chip; harness spliced into vtx (overlay)"])
 
+K_LOADERS = dict(name="K-core::loaders", package="rustzx-core", features="full",
+                 harnesses=["sna_header_decode", "szx_one_block"], jobs=2, timeout=3000,
+                 bounded={"szx_one_block": "SZX files of one block with <= 40 data bytes, stored (not zlib) pages, 4-byte stand-in pages"},
+                 functions={"sna_header_decode": ["sna::load (header decode, size/model checks, error paths)", "Z80::set_im", "ZXColor::from_bits"],
+                            "szx_one_block": ["szx::load", "szx::process_z80r_block", "process_spcr_block", "process_ay_block", "process_keyb_block",
+                                              "process_amxm_block", "process_crtr_block", "process_ramp_block (stored pages)"]},
+                 assumptions=CORE_ASSUME + CTL_STUBS + [
+                     "asset = in-memory array with a symbolic reported length and a symbolic injected read/seek failure index",
+                     "page accessors replaced by 4-byte stand-in pages (see K-core::sna); refresh_memory_dependent_devices stubbed",
+                     "miniz_oxide inflate (compressed SZX pages), flate2 and delharc are third-party decoders, not verified: assumed to return Ok/Err within their documented limits"])
+
+K_REFRESH = dict(name="K-core::screen", package="rustzx-core", features="full",
+                 harnesses=["refresh_shadow_48k", "refresh_shadow_128k_bank5", "refresh_shadow_128k_bank7"], jobs=3, timeout=3000,
+                 functions={"*": ["ZXController::refresh_memory_dependent_devices"]},
+                 assumptions=CORE_ASSUME + ["libm::sqrt stubbed while constructing the controller"])
+
+K_VTXLOAD = dict(name="K-vtx::load", package="vtx", harnesses=["vtx_load_header"], jobs=1, timeout=3000,
+                 bounded={"vtx_load_header": "byte strings <= 48 bytes, declared frame size 0 / rejected (LH5 payload excluded)"},
+                 functions={"*": ["Vtx::load (header, strings block)"]},
+                 assumptions=["delharc LH5 decoder not verified"])
+
 K_SNA = dict(name="K-core::sna", package="rustzx-core", features="full",
              harnesses=["sna_rt_48k_same", "sna_rt_48k_fresh", "sna_rt128_same", "sna_rt128_fresh", "page_slices"],
              jobs=5, timeout=3000,
@@ -252,6 +273,25 @@ K_SNA = dict(name="K-core::sna", package="rustzx-core", features="full",
                  "refresh_memory_dependent_devices stubbed to a no-op (C08 owns it)"])
 
 PROPS = {
+    "C14": dict(
+        level="proof",
+        claim="Kani/CBMC on the real loaders: for every 27-byte SNA header, every prior CPU state and both machines the registers, IFF, interrupt mode, border are exactly the format's decode (Err for mode 3), independent of halted/EI-shadow/prefix state of the receiver, and a snapshot of the other model is rejected; SNA RAM banks and the 128K latch incl. lock through the round-trip harnesses of C13; SZX Z80R decode incl. halted / EI-pending flags (bounded one-block files) and model mismatch rejection; Verus: restore_7ffd sets the latch regardless of a previous lock, ZXAyChip::set_regs restores the register file and programs the generator, every behind-the-bus RAM writer refreshes the display shadow (scan) and refresh covers every display bank (Kani).",
+        note="SZX part BOUNDED (one block <= 40 bytes; zlib pages rely on the unverified miniz_oxide). 'Two encodings of the same state behave identically' follows by transitivity through the decode obligations, not mechanised. SCR loader not separately contracted (size check + read into the bank mapped at 0x4000, read from source). SZX halted-PC convention left as implemented (format ambiguity). Defects repaired: model mismatch (SNA, SZX), locked receiver, AY generator not restored, receiver CPU state.",
+        verus=["ctl"],
+        kani=[K_LOADERS, K_REFRESH],
+        scans=[scan_ram_writers_refresh],
+        explanation="loader decode obligations against the format descriptions",
+        technique="contract-based deductive verification: Kani/CBMC harnesses on the real loaders + Verus contracts",
+    ),
+    "C15": dict(
+        level="proof",
+        claim="Totality obligations: Verus proves termination and absence of panics/overflow/out-of-range access (its default obligations) for the host-trait loops read_exact/write_all under ANY host read/write behaviour, the TAP block reader and pulse state machine for all images, frame_registers, the VTX transposition, BlocksCount, ZXColor::from_bits / set_regs preconditions; Kani proves that sna::load returns Ok/Err for every header, reported size class, model combination and an injected asset failure at any call, and (BOUNDED) the same for one-block SZX files and <= 48-byte VTX headers; every K-z80 group additionally proves Z80::emulate free of panics for every CPU state and bus answer (thorough tier).",
+        note="BOUNDED parts are reported under bounded_stand_ins. Third-party decoders (miniz_oxide, flate2/GzipAsset, delharc) are out of reach and assumed. Memory proportionality is the explicit size checks now in the loaders (SZX block size <= rest of file, VTX frame size cap), checked by the harness assertions. Twelve loader defects repaired (see known_findings.json fixed entries).",
+        verus=["hostio", "tape", "vtx", "screen"],
+        kani=[K_LOADERS, K_VTXLOAD, k_z80("K-z80::total", ["plain_all", "ed_all", "cbx_all"], tier="thorough")],
+        explanation="panic-freedom and termination as verifier default obligations on the load paths",
+        technique="contract-based deductive verification: Verus default obligations (no panic, no overflow, termination) + Kani/CBMC harnesses",
+    ),
     "C13": dict(
         level="proof",
         claim="Kani/CBMC proofs on the real Emulator: for every register value (SP fixed), interrupt mode, border colour and (128K) every paging latch value incl. lock bit, save writes a file from which load restores every SNA-carried item, the latch and lock state and every RAM bank into the same bank, into the same emulator after arbitrary disturbance (registers, halted, EI shadow, border, another paging write that may lock) or into a fresh one; save leaves registers, latch and RAM unchanged. Page accessors return exactly their bank (Kani); restore_7ffd / write_all contracts (Verus).",
@@ -307,9 +347,9 @@ PROPS = {
     "C03": dict(
         level="proof",
         claim="Kani/CBMC proof that for every encoding, state and bus answer the complete sequence of bus cycles of the real Z80::emulate (kind: MREQ wait / no-MREQ single T-state / internal wait / read / write / port in / port out / int-ack, address, clocks) and the T-state total equal the reference's documented machine-cycle script: 4-T fetches, 3-T reads/writes, internal T-states carrying IR/PC/HL/DE/BC/SP/indexed addresses, taken/not-taken forms, every repeat iteration of the block instructions, interrupt entry 13/19/11.",
-        note="Port cycles are single read_io/write_io calls whose 4 T are C04's obligation. Reference scripts are the trusted specification. quick runs the unprefixed/CB/ED/DDCB classes and interrupt entry; thorough adds DD/FD/FDCB/pending-prefix classes.",
-        kani=[k_z80("K-z80::timing", ["plain_all", "cbx_all", "ed_all", "ddcb_idx", "halt_stay"] + Z80_INT),
-              k_z80("K-z80::timing-idx", ["dd_all", "fd_all", "fdcb_idx", "pend_dd", "pend_fd", "pend_ed", "halt_enter"], tier="thorough")],
+        note="Port cycles are single read_io/write_io calls whose 4 T are C04's obligation. Reference scripts are the trusted specification. quick runs the unprefixed/CB/ED/DD/FD/DDCB classes and interrupt entry; thorough adds FDCB and the pending-prefix continuations.",
+        kani=[k_z80("K-z80::timing", ["plain_all", "cbx_all", "ed_all", "dd_all", "fd_all", "ddcb_idx", "halt_stay"] + Z80_INT),
+              k_z80("K-z80::timing-idx", ["fdcb_idx", "pend_dd", "pend_fd", "pend_ed", "halt_enter"], tier="thorough")],
         explanation="bus-cycle trace equality against the reference",
         technique="contract-based deductive verification: Kani/CBMC loop-free full-domain harnesses (bit-precise, complete)",
     ),
@@ -318,7 +358,7 @@ PROPS = {
         claim="Deductive proof (Verus): the address helpers are the inverse of the statement's offset formula (bijection lemma); ZXScreen::update changes exactly the shadow cell whose display offset is written; process_clocks draws exactly the blocks the beam passed since the previous call, each pixel = bit 7-(x mod 8) coloured by ink/paper/BRIGHT/FLASH of its attribute (nested loop invariants over a ghost pixel map); new_frame delivers the back buffer and toggles the flash phase every 16 frames; lemmas: a bus write keeps shadow == RAM (invariant K), a full pass over an unchanged shadow yields the standard decode of RAM. write_internal forwards every RAM write through any window to the screen (ghost call log); a syntactic frame obligation requires every behind-the-bus RAM writer to refresh the shadow.",
         note="Assumes host FrameBuffer contract; Box<[T;N]> treated as the owned array; the composition over a frame (K maintained by every writer + process_clocks called with the frame clock from wait_internal + switch_bank selecting bank 5/7) is argued from these contracts, not a single mechanised theorem. Error paths of loaders (partial page write then Err) are not covered. One defect repaired (pokes bypassed the shadow).",
         verus=["screen", "ctl"],
-        kani=[K_MACHINE],
+        kani=[K_MACHINE, K_REFRESH],
         scans=[scan_ram_writers_refresh],
         explanation="screen decode: leaf inverses, update/process_clocks/new_frame contracts over ghost pixel maps, invariant K lemmas",
     ),
